@@ -425,7 +425,10 @@ fn arbitrary(rng: &mut Rng) -> Vec<u8> {
 pub fn gen_case(rng: &mut Rng, opt: &str, _thorough: bool) -> String {
     let (ty, tmax) = *rng.pick(TYPES);
     let cfg = rng.chance(1, 3);
-    let family = if opt.is_empty() || opt == "mix" {
+    let family = if (opt.is_empty() || opt == "mix" || opt.contains("layout")) && rng.chance(1, 1200) {
+        // a document larger than two default chunks: refill / realign at the sizes real files have
+        "long"
+    } else if opt.is_empty() || opt == "mix" {
         *rng.pick(&["layout", "layout", "rt", "mutate", "mutate", "arbitrary", "corrupt", "fault", "log", "logmut"])
     } else {
         let fams: Vec<&str> = opt.split('+').collect();
@@ -444,6 +447,38 @@ pub fn gen_case(rng: &mut Rng, opt: &str, _thorough: bool) -> String {
             let doc = gen_doc(rng, fmt, tmax, cfg);
             case.data = write_real(&doc, ty);
             case.expect = Some(doc.expected());
+        }
+        "long" => {
+            // 40..70 KB: ~3000 clauses, full layout grammar; optionally one corrupted literal near
+            // the end (error located through the mark after several realigns)
+            let mut doc = gen_doc(rng, fmt, tmax, true);
+            doc.header = None;
+            let n = rng.range(2500, 4000) as usize;
+            doc.clauses = (0..n).map(|_| {
+                let len = rng.range(0, 5) as usize;
+                (if fmt == "cnf" { 0 } else { rng.below(1000) }, (0..len).map(|_| rand_lit(rng, tmax)).collect())
+            }).collect();
+            let plain = rng.chance(1, 2);
+            let r = render(rng, &doc, plain);
+            if rng.chance(1, 2) {
+                case.data = r.bytes;
+                case.expect = Some(doc.expected());
+            } else {
+                let lits: Vec<&(usize, usize, usize, TokKind)> = r.tokens.iter().filter(|t| t.3 == TokKind::Lit && t.0 > r.tokens.last().unwrap().0 / 2).collect();
+                if let Some(&&(l, c, nlen, _)) = lits.get(rng.below(lits.len().max(1) as u64) as usize) {
+                    let mut off = 0; let mut line = 1;
+                    while line < l { if r.bytes[off] == b'\n' { line += 1; } off += 1; }
+                    off += c - 1;
+                    let repl = b"99999999999999999999999".to_vec();
+                    let mut b = r.bytes.clone();
+                    b.splice(off..off + nlen, repl.clone());
+                    case.data = b;
+                    case.tok = Some((l, c, repl.len()));
+                } else {
+                    case.data = r.bytes;
+                }
+            }
+            case.cfg = true;
         }
         "mutate" => {
             let doc = gen_doc(rng, fmt, tmax, cfg);
